@@ -47,8 +47,13 @@ def commit_rule(repo: Repo, rep: Report, rid: str) -> None:
             # guarded form:  if not cls.__updating__: cls.commit()
             guarded = [m for m in g.nodes if m.kind == "if" and norm(m.ast.test) == f"not {tgt}.__updating__" and
                        any(isinstance(c, ast.Call) and call_name(c) == "commit" for s in m.ast.body for c in ast.walk(s))]
+            # guard-clause form:  if cls.__updating__: return  ...  cls.commit()
+            early = [m for m in g.nodes if m.kind == "if" and norm(m.ast.test) == f"{tgt}.__updating__" and m.ast.body and isinstance(m.ast.body[-1], ast.Return)
+                     and not m.ast.orelse]
             if guarded and g.must_pass(node.id, g.exit.id, {guarded[0].id}):
                 rep.ok(rid, key, f"commit deferred only while {tgt}.__updating__ (set by start_update, which commits in finally)", fi.loc(x))
+            elif early and commits and g.must_pass(node.id, g.exit.id, {early[0].id}) and g.exit.id not in g.reachable(early[0].id, first_edge="F", avoid=commits, skip_exc=True):
+                rep.ok(rid, key, f"returns early only while {tgt}.__updating__, commits otherwise", fi.loc(x))
             else:
                 rep.fail(rid, key, f"{fi.qualname} changes {tgt}.__fields__ and can return without {tgt}.commit(): size, offsets, generated methods and "
                                    f"the compiled reader would describe the old field list", fi.loc(x))
@@ -84,8 +89,52 @@ def update_fields_fold(repo: Repo):
     return cache["v"]
 
 
+def fold_commit(repo: Repo):
+    """StructureMetaType.commit interpreted on a model class: _update_fields is called once with (cls.__fields__, cls.__align__) and every key of the
+    class dict it returns is installed on the class with its value.  None when outside the evaluator's whitelist."""
+    from ..folds import module_env
+    from ..minieval import Evaluator, Host, Raised, Refused, Sym, UserFunc
+
+    cm = repo.func_opt("types/structure.py", "StructureMetaType.commit")
+    if cm is None:
+        return None
+    out: dict = {"bad": []}
+    try:
+        for state in ({"__updating__": False, "size": 4}, {"__updating__": True, "size": None}):
+            calls: list = []
+            installed: dict = {}
+            fields, align = [Sym("field:a")], "<the class's align flag>"
+            classdict = {"fields": {"a": 1}, "lookup": {"a": 1}, "__fields__": fields, "size": 0, "alignment": None, "dynamic": False, "__init__": "<init>", "_read": "<reader>",
+                         "__compiled__": False, "__bool__": "<bool>"}
+            cls = Sym("cls", {"__fields__": fields, "__align__": align, **state}, {"_update_fields": Host(lambda *a, **k: (calls.append((a, k)), dict(classdict))[1])})
+            env = module_env(repo, "types/structure.py", {"setattr": Host(lambda o, k, v: installed.__setitem__(k, v) if o is cls else None), "dict": dict, "list": list})
+            try:
+                Evaluator(env, steps=4000).call_user(UserFunc(cm.node, env), [cls], {})
+            except Raised as e:
+                out["bad"].append(f"commit raised {e}")
+                continue
+            for k_, v_ in cls.attrs.items():
+                if k_ in classdict and k_ not in installed and v_ == classdict[k_] and k_ not in ("__fields__",):
+                    installed[k_] = v_  # installed by plain attribute assignment
+            if len(calls) != 1 or list(calls[0][0][:2]) != [fields, align] and calls[0][1].get("align") != align:
+                out["bad"].append(f"_update_fields called {len(calls)} times with {calls[:1]} (expected once, with cls.__fields__ and cls.__align__)")
+            missing = [k_ for k_, v_ in classdict.items() if k_ not in installed or installed[k_] != v_]
+            if missing:
+                out["bad"].append(f"keys of the class dict not installed on the class: {missing} (class state {state})")
+        return out
+    except Refused:
+        return None
+    except (TypeError, KeyError, IndexError, ValueError, AttributeError):
+        return None
+
+
 def _commit_checks(repo: Repo, rep: Report, rid: str) -> None:
     cm = repo.func("types/structure.py", "StructureMetaType.commit")
+    fc = fold_commit(repo)
+    if fc is not None:
+        rep.check(not fc["bad"], rid, f"{cm.key}:install", "folded: recomputed once from (cls.__fields__, cls.__align__), every key of the class dict installed",
+                  f"commit: {fc['bad'][0] if fc['bad'] else ''}", cm.loc())
+        return
     loops = [f for f in walk_body(cm.node.body) if isinstance(f, ast.For)]
     ok = len(loops) == 1 and "classdict.items()" in norm(loops[0].iter) and len(loops[0].body) == 1 and \
         isinstance(loops[0].body[0], ast.Expr) and call_name(loops[0].body[0].value) == "setattr" and not any(isinstance(x, ast.If) for x in ast.walk(loops[0]))
@@ -196,6 +245,11 @@ def offsets_before_compile_rule(repo: Repo, rep: Report, rid: str) -> None:
 def commit_path_rule(repo: Repo, rep: Report, rid: str) -> None:
     rep.rule(rid, "commit() has no path that skips the recomputation or the installation (no 'nothing changed' shortcut)")
     cm = repo.func("types/structure.py", "StructureMetaType.commit")
+    fc = fold_commit(repo)
+    if fc is not None:
+        rep.check(not fc["bad"], rid, f"{cm.key}:no-shortcut", "folded on a class in either update state: always recomputes and installs every key",
+                  f"commit() can return without recomputing / installing the derived attributes: {fc['bad'][0] if fc['bad'] else ''}", cm.loc())
+        return
     g = CFG(cm.node)
     upd = {n.id for n in g.nodes if n.kind == "stmt" and node_calls(n, "_update_fields")}
     inst = {n.id for n in g.nodes if n.kind == "for"}
@@ -432,12 +486,14 @@ def stale_state_rule(repo: Repo, rep: Report, rid: str) -> None:
                   "alignment mode only - they never read an attribute of the class that _update_fields itself derives (size, alignment, dynamic, fields, "
                   "lookup, generated methods); the compiled flag, carried over by design, and commit's read of __fields__ are the exceptions")
     uf_fn = repo.func("types/structure.py", "StructureMetaType._update_fields")
-    derived = set()
+    derived = set(EXPECTED_DERIVED) | {"size", "alignment", "dynamic", "fields", "lookup"}
     for x in walk_body(uf_fn.node.body):
-        if isinstance(x, ast.Assign) and isinstance(x.targets[0], ast.Subscript) and norm(x.targets[0].value) == "classdict" and is_const(x.targets[0].slice):
-            derived.add(const_value(x.targets[0].slice))
-    if len(derived) < 8:
-        raise AnalysisError(f"{rid}: only {len(derived)} derived attributes found in _update_fields")
+        for t_ in (x.targets if isinstance(x, ast.Assign) else []):
+            for e_ in (t_.elts if isinstance(t_, ast.Tuple) else [t_]):
+                if isinstance(e_, ast.Subscript) and norm(e_.value) == "classdict" and is_const(e_.slice):
+                    derived.add(const_value(e_.slice))
+        if isinstance(x, ast.Call) and call_name(x) == "update" and norm(x.func.value) == "classdict":
+            derived |= {k_.arg for k_ in x.keywords if k_.arg}
     n = 0
     for q in ("StructureMetaType._update_fields", "StructureMetaType._calculate_size_and_offsets", "UnionMetaType._calculate_size_and_offsets", "StructureMetaType.commit"):
         fi = repo.func_opt("types/structure.py", q)
@@ -497,10 +553,13 @@ def field_copy_rule(repo: Repo, rep: Report, rid: str) -> None:
 def run(repo: Repo, rep: Report, tier: str) -> None:
     commit_rule(repo, rep, "C18.R1")
     refresh_rule(repo, rep, "C18.R2")
-    selfref_rule(repo, rep, "C18.R3")
+    from .c13 import parser_fold_rule, token_parser_shape
+
+    parser_fold_rule(repo, rep, "C18.R19")
+    token_parser_shape(repo, rep, selfref_rule, "C18.R3")
     offsets_before_compile_rule(repo, rep, "C18.R4")
     commit_path_rule(repo, rep, "C18.R5")
-    align_flag_rule(repo, rep, "C18.R6")
+    token_parser_shape(repo, rep, align_flag_rule, "C18.R6")
     from .memo import memo_rule
 
     memo_rule(repo, rep, "C18.R7")
